@@ -40,6 +40,7 @@ func vAssert(c bool, id string)                            {}
 func vKnown(c bool, id string)                             {}
 func vCover(id string)                                     {}
 func vCoverIf(c bool, id string)                           {}
+func vRequire(c bool, id string)                           {}
 func vDeploy(contract string, args ...any)                 {}
 func vSign(acct []byte, present bool)                      {}
 func vInvoke(contract, method string, args ...any) (bool, any) { return false, nil }
@@ -458,12 +459,16 @@ func (e *Engine) vcall(fn *ssa.Function, s *St, in *ssa.Call, ip int, short stri
 		}
 		s.State.pc = And(s.pc, c)
 		return set(UnitV{})
-	case "vCover", "vCoverIf":
+	case "vCover", "vCoverIf", "vRequire":
 		var id string
 		cond := tTrue
-		if short == "vCoverIf" {
+		kind := "cover"
+		if short == "vCoverIf" || short == "vRequire" {
 			id = cStr(args[1])
 			cond = args[0].(BoolV).t
+			if short == "vRequire" { // a success the property demands ("with the required witnesses it succeeds")
+				kind = "require"
+			}
 		} else {
 			id = tag()
 		}
@@ -473,7 +478,7 @@ func (e *Engine) vcall(fn *ssa.Function, s *St, in *ssa.Call, ip int, short stri
 			}
 			return set(UnitV{})
 		}
-		ob := e.obligation(id, "cover")
+		ob := e.obligation(id, kind)
 		if ob.Verdict == "sat" && !e.allCovers { // one witness per cover point is enough
 			return set(UnitV{})
 		}
